@@ -166,7 +166,10 @@ fn main() {
             continue;
         }
         let obs = run_engine(store, &text, &[]);
-        let must_ok = corpus.contains(&shape);
+        // "must not start failing" is about constructs becoming unsupported; a type error is a
+        // refusal that depends on the data (mixed-type properties meet the predicate wherever the
+        // planner evaluates it), so it never counts as a supported shape starting to fail
+        let must_ok = corpus.contains(&shape) && !matches!(&obs, Obs::Err(e) if e.starts_with("Type error"));
         let e = shapes.entry(shape.clone()).or_insert((0, 0));
         match &obs {
             Obs::Ok(_) => e.0 += 1,
